@@ -35,7 +35,7 @@ ASSUMPTIONS = [
     "with_a() / with_a(MISSING) builds a fresh value of the declared type (documented pipeline step 4) - it is not a no-op",
     "identity of the result for state no-ops is only asserted for _if=False",
     "reset_a / del restore the default as a newly constructed instance holds it, i.e. prepared (so do the dependants that an invalidation resets); "
-    "an attribute without default that is already missing may raise AttributeError or return an equal copy",
+    "resetting an attribute without default that is already missing leaves it missing (no error)",
     "the model covers: with_/transform_/reset_ on every attribute kind with whole conforming values, update_/with_ with nested keywords on spec attributes, "
     "update/transform/reset as folds; other forms are checked through relations (2)-(5) only",
 ]
@@ -267,6 +267,12 @@ def run_case(ctx, case):
     ctx.count(f"{route}:{oa}")
     if oa != ob or (oa == "raise" and type(ra).__name__ != type(rb).__name__):
         ctx.fail(f"{route}|copy_vs_inplace_outcome", case, f"copy form -> {oa} {ra!r}; in-place form -> {ob} {rb!r}")
+        return
+    if oa == "raise" and probe["form"] in ("reset_attr", "reset") and isinstance(ra, AttributeError):
+        # "reset_<a> / reset / del restore defaults" (docs: "... or MISSING if there is no default"): there is nothing a reset can
+        # object to - in particular not that the attribute holds nothing at the moment (a default that its own preparer rejects
+        # is the class's problem: the constructor fails on it as well)
+        ctx.fail(f"{route}|reset_raised:{type(ra).__name__}", case, f"{base} raised {ra!r}")
         return
     noop = probe["k"].get("_if") is False
     if noop and oa != "ok":
